@@ -4,6 +4,7 @@ import (
 	"fmt"
 	"strings"
 	"sync"
+	"sync/atomic"
 	"time"
 
 	"github.com/jcmturner/gofork/encoding/asn1"
@@ -68,6 +69,7 @@ type kdcSim struct {
 	next     map[string]string // referral routing: from realm -> toward target: next hop
 	clientPw string
 	cliEt    int32
+	down     int32 // != 0: the KDCs accept connections and close them without an answer (an outage)
 }
 
 var simRealms = []string{"TEST.GOKRB5", "OTHER.REALM", "THIRD.REALM"}
@@ -187,6 +189,9 @@ func (s *kdcSim) krbError(r *simReq, realm string, sname types.PrincipalName, co
 }
 
 func (s *kdcSim) handle(realm string, req []byte) []byte {
+	if atomic.LoadInt32(&s.down) != 0 {
+		return nil
+	}
 	s.mu.Lock()
 	defer s.mu.Unlock()
 	var a messages.ASReq
